@@ -1401,3 +1401,13 @@ MUTANTS += [
  dict(id='R9-control-end-breaks-out-of-select-only', props=['C15', 'C03'], expect='R-CONTROL-ENDED-RETURNS/control-ended/',
       edits=[(MS, '\t\t\tif completedCount >= totalFiles {\n\t\t\t\treturn m, nil\n\t\t\t}\n\t\t\treturn m, err\n\t\tcase err := <-dataErrCh:', '\t\t\tif completedCount >= totalFiles {\n\t\t\t\treturn m, nil\n\t\t\t}\n\t\t\tif err != nil {\n\t\t\t\treturn m, err\n\t\t\t}\n\t\tcase err := <-dataErrCh:')]),
 ]
+
+# --- F73 ---
+MUTANTS += [
+ dict(id='F73-undo-header-read-honours-cancel', props=['C02'], expect='R-HEADER-READ-CANCELLABLE/header-read/',
+      edits=[(MS, '\tm, err = readControlHeaderCtx(ctx, controlStream)\n', '\tm, err = readControlHeader(controlStream)\n')]),
+ dict(id='F73-result-channel-without-room', props=['C02'], expect='R-HEADER-READ-CANCELLABLE/header-read/',
+      edits=[(MS, '\tresCh := make(chan headerResult, 1)\n', '\tresCh := make(chan headerResult)\n')]),
+ dict(id='F73-select-without-done', props=['C02'], expect='R-HEADER-READ-CANCELLABLE/header-read/',
+      edits=[(MS, '\tselect {\n\tcase res := <-resCh:\n\t\treturn res.m, res.err\n\tcase <-ctx.Done():\n\t\treturn manifest.Manifest{}, ctx.Err()\n\t}\n', '\tres := <-resCh\n\treturn res.m, res.err\n')]),
+]
